@@ -187,6 +187,8 @@ type TypeCfg struct {
 	ElemFilter  func(parent string, child *TypeSpec) bool // optional veto on a child under a parent kind
 	NoIface     bool
 	FieldNames  []string
+	Wide        bool // sometimes 9..17 fields (bitmap key matcher widths 8/16/none)
+	NoDashTag   bool // never "-" tags
 }
 
 var DefaultKeyKinds = []string{"string", "string", "string", "int", "int8", "int16", "int32", "int64", "uint", "uint8", "uint16", "uint32", "uint64", "uintptr", "leaf:NStr", "leaf:NInt"}
@@ -196,6 +198,8 @@ func DefaultTypeCfg() TypeCfg {
 }
 
 var fieldNames = []string{"A", "B", "C", "D", "Ab", "AB", "X1", "Foo", "Bar_", "Z", "Name", "ID", "Aa"}
+var wideNames = []string{"F00", "F01", "F02", "F03", "F04", "F05", "F06", "F07", "F08", "F09", "F10", "F11", "F12", "F13", "F14", "F15", "F16", "F17", "F18", "F19",
+	"Alpha", "Beta", "Gamma", "Delta", "Epsilon", "Zeta", "Eta", "Theta", "Iota", "Kappa", "Lambda", "Mu", "A", "B", "Ab", "AB"}
 var unexpNames = []string{"a", "b", "x", "foo"}
 var tagNames = []string{"a", "b", "A", "x", "foo", "a<b", "é", "name", "x-y", "_", "1", "Ab", "ab", "a b", "-"}
 
@@ -267,6 +271,10 @@ func genStruct(t *rapid.T, c TypeCfg, depth int, embDepth int) *TypeSpec {
 	if len(c.FieldNames) > 0 {
 		names = c.FieldNames
 	}
+	if c.Wide && depth <= 1 && rapid.IntRange(0, 7).Draw(t, "wide") == 0 {
+		n = rapid.IntRange(8, 18).Draw(t, "nwide")
+		names = wideNames
+	}
 	for i := 0; i < n; i++ {
 		var f FieldSpec
 		if c.Embedded && embDepth < 3 && rapid.IntRange(0, 7).Draw(t, "emb") == 0 {
@@ -303,7 +311,9 @@ func genTag(t *rapid.T, c TypeCfg) (bool, string) {
 	case 0, 1, 2, 3:
 		return false, ""
 	case 4:
-		return true, "-"
+		if !c.NoDashTag {
+			return true, "-"
+		}
 	case 5:
 		return true, "-,"
 	}
